@@ -1,15 +1,21 @@
+import IcyVerif.Drv.Codec
 import IcyVerif.Drv.ColorOpt
 import IcyVerif.Drv.Comp
 import IcyVerif.Drv.Crc
+import IcyVerif.Drv.IcyDraw
+import IcyVerif.Drv.Palette
 import IcyVerif.Drv.Term
 import IcyVerif.Drv.XbCompress
 open IcyVerif.Drv
 
 def dispatch (line : String) : String :=
   match line.trimAscii.toString.splitOn " " with
+  | "codec" :: rest => Codec.handle rest
   | "coloropt" :: rest => ColorOpt.handle rest
   | "comp" :: rest => Comp.handle rest
   | "crc" :: rest => Crc.handle rest
+  | "icydraw" :: rest => IcyDraw.handle rest
+  | "palette" :: rest => Palette.handle rest
   | "term" :: rest => Term.handle rest
   | "xbcompress" :: rest => XbCompress.handle rest
   | _ => "bad-op"
